@@ -11,6 +11,7 @@ import (
 	"crypto/sha256"
 	"encoding/binary"
 	"fmt"
+	"math"
 	"math/big"
 	"os"
 	"regexp"
@@ -245,6 +246,7 @@ type model struct {
 	// are p on cs<w>); lastDom: shift of the domain passed to the last conversion. Unset: the initial shift s.
 	cs, lastDom       *big.Int
 	csSet, lastDomSet bool
+	autoShift         bool // WriteRead first sets a shift from rtShiftList (the exhaustive walk, which has no shift state)
 }
 
 func (m *model) curShift() *big.Int {
@@ -317,6 +319,31 @@ func newModelSpare(sh *shared, f inst.IopForm, n, spare int) *model {
 		hist: []string{"new:" + f.String() + fmt.Sprintf("/len%d+spare%d", n, spare)}}
 }
 
+// np2 is the smallest power of two >= n: the order of fft.Generator(n), the root of unity a Shift refers to.
+func np2(n int) int {
+	p := 1
+	for p < n {
+		p <<= 1
+	}
+	return p
+}
+
+func isPow2(n int) bool { return n > 0 && n&(n-1) == 0 }
+
+// keyF12i: GetCoeff derives the index offset of a shift as len/size (integer division) while the root of unity
+// of the shift (fft.Generator(size), used by Evaluate) has order NextPowerOfTwo(size): for a size that is not a
+// power of two and a vector extended far enough (len/size != len/NextPowerOfTwo(size)) the two disagree.
+const keyF12i = "F12i-iop-getcoeff-rho-size-not-power-of-two"
+
+// rhoMismatch reports whether GetCoeff under Shift(k) falls in the F12i class for this object.
+func (m *model) rhoMismatch(k int) bool {
+	if m.form.Basis == inst.Canonical {
+		return false
+	}
+	d := m.n/m.size - m.n/np2(m.size)
+	return d != 0 && mod(d*mod(k, m.n), m.n) != 0
+}
+
 func mod(a, n int) int {
 	a %= n
 	if a < 0 {
@@ -367,8 +394,10 @@ func (m *model) wantCoeff(i, k int) (*big.Int, bool) {
 		}
 		return m.entryS(inst.Canonical, m.n, i, nil), true
 	}
-	rho := m.n / m.size
-	return m.entryS(m.form.Basis, m.n, mod(i+rho*mod(k, m.size), m.n), m.curShift()), true
+	// Shift(k) means p(w^k X) with w = fft.Generator(size) of order N0 = NextPowerOfTwo(size) (that is what Evaluate
+	// uses); on the len-sized domain w = w_len^(len/N0), so the entry moves by (len/N0)*k positions
+	N0 := np2(m.size)
+	return m.entryS(m.form.Basis, m.n, mod(i+(m.n/N0)*mod(k, N0), m.n), m.curShift()), true
 }
 
 // checkCoeffs compares GetCoeff(i) under Shift(k) for the given indices; restores m.shift afterwards.
@@ -378,6 +407,10 @@ func (m *model) checkCoeffs(t TB, k int, idx []int) int {
 	for _, i := range idx {
 		want, ok := m.wantCoeff(i, k)
 		if !ok {
+			break
+		}
+		if m.rhoMismatch(k) && rep.Known("C20", keyF12i) {
+			rep.Excluded("C20_known", "C20", keyF12i)
 			break
 		}
 		var got *big.Int
@@ -396,7 +429,7 @@ func (m *model) canEvaluate() bool { return m.form.Basis != inst.LagrangeCoset |
 
 // wantEval is p(ω_size^k · x) by Horner.
 func (m *model) wantEval(x *big.Int, k int) *big.Int {
-	w := m.c.dom(m.size, nil).ref.W
+	w := m.c.dom(np2(m.size), nil).ref.W
 	g := m.c.F.Exp(w, bi(int64(k)))
 	return m.p.Eval(m.c.F.Mul(g, x))
 }
@@ -432,6 +465,10 @@ func (m *model) checkCoeffCurrent(t TB, i int) bool {
 	if !ok {
 		return false
 	}
+	if m.rhoMismatch(m.shift) && rep.Known("C20", keyF12i) {
+		rep.Excluded("C20_known", "C20", keyF12i)
+		return false
+	}
 	var got *big.Int
 	m.guard(t, fmt.Sprintf("GetCoeff(%d)", i), func() { got = m.lib.GetCoeff(i) })
 	if got.Cmp(want) != 0 {
@@ -442,13 +479,46 @@ func (m *model) checkCoeffCurrent(t TB, i int) bool {
 
 // shiftList is the DESIGN list for a polynomial of the given size.
 func shiftList(size int) []int {
-	return []int{0, 1, 2, 3, 4, 5, 6, 7, size - 1, size, size + 1, -1, -size}
+	return []int{0, 1, 2, 3, 4, 5, 6, 7, size - 1, size, size + 1, -1, -size,
+		-(np2(size) + 1), math.MaxInt32, math.MinInt32, 1<<32 + 1, -(1<<32 + 1), math.MaxInt64}
+}
+
+// rtShiftList: the shifts a serialised object is given (the encoding has a uint32 field for an int).
+func rtShiftList(size int) []int {
+	N0 := np2(size)
+	return []int{0, 1, -1, size - 1, size, size + 1, -size, N0 - 1, N0, N0 + 1, -(N0 + 1), 2*size + 3, math.MaxInt32, math.MinInt32,
+		1 << 32, 1<<32 + 1, -(1<<32 + 1), 1<<40 + 3, math.MaxInt64, math.MinInt64}
+}
+
+// rtClasses labels a WriteTo->ReadFrom round trip of an object of the given size carrying Shift(k).
+func rtClasses(size, k int) []string {
+	var out []string
+	if k < 0 {
+		out = append(out, "roundtrip:negative_shift")
+	}
+	if !isPow2(size) {
+		out = append(out, "roundtrip:size_not_pow2")
+		if k < 0 || k >= size {
+			out = append(out, "roundtrip:size_not_pow2+shift_outside_[0,size)")
+		}
+	}
+	if k >= np2(size) {
+		out = append(out, "roundtrip:shift_ge_nextpow2")
+	}
+	if k > math.MaxUint32 || k < -math.MaxUint32 {
+		out = append(out, "roundtrip:shift_beyond_uint32")
+	}
+	return out
 }
 
 func shiftClass(k, size int) string {
 	switch {
 	case k == 0:
 		return "shift:0"
+	case k > math.MaxUint32 || k < -math.MaxUint32:
+		return "shift:beyond_uint32"
+	case k == math.MaxInt32 || k == math.MinInt32:
+		return "shift:int32_edge"
 	case k < 0:
 		return "shift:neg"
 	case k >= size:
@@ -464,7 +534,7 @@ var pointClasses = []string{"random", "zero", "one", "domain", "coset", "minus_o
 
 // point returns an evaluation point of the named class; j varies the member.
 func (m *model) point(class string, j int) *big.Int {
-	d := m.c.dom(m.n, m.curShift()).ref // coset points: of the coset the object currently refers to
+	d := m.c.dom(np2(m.n), m.curShift()).ref // coset points: of the coset the object currently refers to
 	switch class {
 	case "zero":
 		return bi(0)
@@ -475,10 +545,11 @@ func (m *model) point(class string, j int) *big.Int {
 	case "coset":
 		return d.CosetPoint(j)
 	case "minus_one_or_sub": // an element of the size-sized subgroup (−1 when size = 2); the coset shift itself for size 1
-		if m.size == 1 {
+		N0 := np2(m.size)
+		if N0 == 1 {
 			return new(big.Int).Set(d.S)
 		}
-		return m.c.dom(m.size, nil).ref.Point(1 + j%(m.size-1))
+		return m.c.dom(N0, nil).ref.Point(1 + j%(N0-1))
 	default:
 		return m.c.hashElem("x", m.size, j)
 	}
@@ -532,10 +603,19 @@ func (m *model) apply(t TB, op, variant, maxLen int) bool {
 		// A coefficient vector (either layout) does not refer to a domain, so it can be converted on any
 		// larger one. Lagrange / LagrangeCoset values are values ON a domain: converting them with a domain
 		// of another cardinality is passing the wrong domain (not generated; see the Note of the exhaustive test).
-		if m.form.Basis != inst.Canonical || 2*m.n > maxLen {
+		n = 2 * m.n
+		if !isPow2(m.n) { // a coefficient vector of any length: the next domain is the next power of two
+			n = np2(m.n)
+		}
+		if m.form.Basis != inst.Canonical || n > maxLen {
 			return false
 		}
-		n = 2 * m.n
+	case opToCanonical, opToLagrange, opToLagrangeCoset, opToBitReverse:
+		// a domain (and the bit reversal permutation) has a power of two cardinality: a vector of another length can
+		// only be converted on a larger domain (the grow operations); BitReverse panics on it (documented)
+		if !isPow2(m.n) {
+			return false
+		}
 	}
 	// the domain handed to a conversion: an object in LagrangeCoset basis refers to one coset, so its domain is
 	// given; otherwise any domain of the right cardinality serves, whatever its coset shift (fft.WithShift)
@@ -544,7 +624,10 @@ func (m *model) apply(t TB, op, variant, maxLen int) bool {
 	if conv && m.form.Basis != inst.LagrangeCoset && len(m.pal) > 0 {
 		ds = m.pal[mod(variant/3, len(m.pal))]
 	}
-	d := m.c.dom(n, ds)
+	var d *dom
+	if conv {
+		d = m.c.dom(n, ds)
+	}
 	m.tags = nil
 	if conv {
 		name += "{s=" + fmt.Sprint(ds) + "}"
@@ -604,6 +687,13 @@ func (m *model) apply(t TB, op, variant, maxLen int) bool {
 		old.Shift(m.shift + 3)
 		old.SetSize(1)
 	case opWriteRead:
+		if m.autoShift { // the walker gives the object a shift to carry through the encoding
+			l := rtShiftList(m.size)
+			m.shift = l[mod(variant, len(l))]
+			m.lib.Shift(m.shift)
+			m.hist[len(m.hist)-1] += fmt.Sprintf("[shift=%d]", m.shift)
+		}
+		m.tags = append(m.tags, rtClasses(m.size, m.shift)...)
 		var buf bytes.Buffer
 		var w int64
 		var err error
@@ -621,6 +711,7 @@ func (m *model) apply(t TB, op, variant, maxLen int) bool {
 		m.lib.Poison()
 		m.lib = back
 		m.spare = false
+		m.checkDecoded(t)
 	}
 	m.n = n
 	if conv {
@@ -636,11 +727,29 @@ func (m *model) apply(t TB, op, variant, maxLen int) bool {
 	return true
 }
 
+// checkDecoded compares a freshly decoded object with the model BEFORE anything touches its Shift(): entries, size,
+// Evaluate at a free, a domain, a coset and a subgroup point and GetCoeff everywhere, all under the decoded shift
+// (the encoding stores the int shift in a uint32 field: what comes back must still denote p(w^shift X)).
+func (m *model) checkDecoded(t TB) {
+	m.checkShape(t)
+	if m.canEvaluate() {
+		for j, pc := range []string{"random", "domain", "coset", "minus_one_or_sub", "one"} {
+			m.checkEvalCurrent(t, m.point(pc, 3*j+1), pc)
+		}
+	}
+	for _, i := range indices(m.n, 1) {
+		if !m.checkCoeffCurrent(t, i) {
+			break
+		}
+	}
+}
+
 // fork deep-copies the library object (through the library's Clone) and the mutable model part.
 func (m *model) fork(t TB) *model {
 	if m.initSpare > 0 {
 		// Clone would drop the spare capacity: rebuild the object and replay the operations
 		c := newModelSpare(m.shared, m.initForm, m.initLen, m.initSpare)
+		c.autoShift = m.autoShift
 		for _, o := range m.ops {
 			c.apply(t, o.op, o.variant, o.maxLen)
 		}
